@@ -1,5 +1,7 @@
 import RbV.Ref.MyersHit
 import RbV.Lemmas.TracebackSound
+import RbV.Lemmas.TracebackRing
+import RbV.Lemmas.TracebackScan
 /-!
 # C10 — Myers traceback yields valid alignments
 
@@ -56,8 +58,9 @@ theorem checkHitRow_eq (eqv : Nat → Nat → Bool) (p t : List Nat) (k : Nat) (
 = diagonal − 1, the `mv` bit of the left column), else Match — to the Sellers matrix.  For every end position it yields a
 start and a path that the acceptance test accepts: the path consumes exactly the pattern and `t[start..stop]`, labels
 Match/Subst correctly and has exactly `D[stop−1]` non-match operations.  (The reconstruction of the three neighbouring
-values from the stored `Pv/Mv` words — `adjust_dist`, `adjust_by_mask`, the ring buffer — is not modelled; that part stays
-sampled.  The driver compares the model's prediction with every path the implementation returns: tag `tb-model-same`.) -/
+values from the stored `Pv/Mv` words — `adjust_dist`, `adjust_by_mask`, the ring buffer — is the subject of the phase-2
+theorems below for the single-word version; for the block-based version it stays sampled.  The driver compares the
+model's prediction with every path the implementation returns: tag `tb-model-same`.) -/
 theorem traceback_rule_sound (eqv : Nat → Nat → Bool) (p t : List Nat) (k stop : Nat) (h1 : 1 ≤ stop)
     (hs : stop ≤ t.length) (d : Nat) (hd : (lastRow (unitW eqv) p t)[stop - 1]? = some d) (hk : d ≤ k) :
     checkHit eqv p t k ⟨(RbV.Model.MyersTraceback.traceback (unitW eqv) p t stop).1, stop, d,
@@ -69,10 +72,194 @@ theorem traceback_rule_sound (eqv : Nat → Nat → Bool) (p t : List Nat) (k st
   subst hrow
   exact RbV.Model.MyersTraceback.traceback_checkHit eqv p t k stop h1 hs hk
 
+
+/-! ## Phase 2: the stored-state traceback of the single-word version
+
+`Model.MyersTraceback` (second half) mirrors `simple.rs: ShortTracebackHandler`, `myers_impl.rs: State::{adjust_dist,
+adjust_by_mask, max}` and `traceback.rs: Traceback::{new, add_state, traceback_at, _traceback_at}`: the states vector
+(one `State` = `pv`, `mv`, last-row distance per text position, written cyclically into `N` slots after a sentinel and
+the initial column), the handler with its two cached states, the single-bit and bit-count distance adjustments, the
+reversed cyclic iterator.  `w` = word size, `dmax` = `D::max_value()` of the distance type (255). -/
+
+open RbV.Model.MyersTraceback RbV.Model.Ukkonen in
+/-- **[C] the handler reads true cells.**  Take the states the search stores for the text `t` (C09 invariant, proved in
+`myers_step`: `pv`/`mv` of a column encode its vertical differences, `dist` its last entry) and run
+`_traceback_at(end = stop − 1)`: `init_traceback`, `move_up_left(true)`, then `n` passes through the loop body.  The
+handler is then finished (`pos_bitvec = 0`) or its cursor is at a cell (row `i + 1`, column `j`) of the Sellers matrix and
+* `block.dist` is the value of that cell, `left_block.dist` the value of the diagonal cell (row `i`, column `j − 1`) — at
+  column 0 the left block is the sentinel `State::max()` adjusted to `dmax − (m − i)`;
+* the three tests of the loop body are the comparisons of the matrix rule: `left.dist.wrapping_add(1) == block.dist` ⇔
+  diagonal + 1 = current (and `j ≥ 1`: never true against the sentinel), `block.pv & pos ≠ 0` ⇔ upper + 1 = current,
+  `left.mv & pos ≠ 0` (`move_left_down_if_better`) ⇔ left + 1 = diagonal (and `j ≥ 1`).
+* so far it has drawn `stop − j + 2` items from the iterator: the states of columns `stop, …, j − 1` and nothing else.
+Every width `w`, pattern `1 ≤ m ≤ w`, equivalence, text, end position; `m < dmax`.  The distances of the model are
+unbounded naturals with truncated subtraction: the equalities show that no `-= 1` is executed on 0 and that
+`adjust_by_mask` never subtracts more than it has (`adjustByMask_spec`). -/
+theorem handler_reads_true_cells (w : Nat) (eqv : Nat → Nat → Bool) (p t : List Nat) (dmax stop n : Nat)
+    (hm1 : 1 ≤ p.length) (hw : p.length ≤ w) (hd : p.length < dmax) (hs : stop ≤ t.length) :
+    (Handler.after dmax p.length (fun k => (seqStates w eqv p dmax t).getD (stop + 1 - k) ⟨0#w, 0#w, 0⟩) n).pos = 0#w ∨
+    ∃ i j, i < p.length ∧ j ≤ stop ∧
+      (Handler.after dmax p.length (fun k => (seqStates w eqv p dmax t).getD (stop + 1 - k) ⟨0#w, 0#w, 0⟩) n).pos =
+        BitVec.twoPow w i ∧
+      (Handler.after dmax p.length (fun k => (seqStates w eqv p dmax t).getD (stop + 1 - k) ⟨0#w, 0#w, 0⟩) n).taken =
+        stop - j + 2 ∧
+      (fun (h : Handler w) =>
+        h.state.dist = cell (unitW eqv) p (t.take j) (i + 1) ∧
+        (1 ≤ j → h.left.dist = cell (unitW eqv) p (t.take (j - 1)) i) ∧
+        (j = 0 → h.left.dist + (p.length - i) = dmax) ∧
+        (((h.left.dist + 1) % (dmax + 1) = h.state.dist) ↔
+          (1 ≤ j ∧ cell (unitW eqv) p (t.take (j - 1)) i + 1 = cell (unitW eqv) p (t.take j) (i + 1))) ∧
+        (((h.state.pv &&& h.pos) != 0#w) =
+          decide (cell (unitW eqv) p (t.take j) i + 1 = cell (unitW eqv) p (t.take j) (i + 1))) ∧
+        (((h.left.mv &&& h.pos) != 0#w) =
+          decide (1 ≤ j ∧ cell (unitW eqv) p (t.take (j - 1)) (i + 1) + 1 = cell (unitW eqv) p (t.take (j - 1)) i)))
+      (Handler.after dmax p.length (fun k => (seqStates w eqv p dmax t).getD (stop + 1 - k) ⟨0#w, 0#w, 0⟩) n) :=
+  after_cells w eqv p t dmax stop n hm1 hw hd hs
+
+open RbV.Model.MyersTraceback in
+/-- **[C] ring lookup.**  `N ≥ 1` slots are filled cyclically (`positions = (0..N).cycle()`) with any sequence of items,
+on top of arbitrary old contents.  The reversed, cyclic iterator of `ShortTracebackHandler::new` started at the slot of
+item number `q` yields item number `q − k` at its `k`-th `next()`, for every `k ≤ q` such that fewer than `N` items were
+stored from item `q − k` on — i.e. exactly as long as the slot has not been overwritten. -/
+theorem ring_read_any (w N : Nat) (hN : 0 < N) (old items : List (RbV.Model.MyersSimple.St w)) (hold : old.length = N)
+    (q k : Nat) (hq : q < items.length) (hk : k ≤ q) (hwin : items.length - 1 - (q - k) < N) :
+    readStore (storeAll N old 0 items) (q % N) k = items.getD (q - k) ⟨0#w, 0#w, 0⟩ :=
+  ring_read N hN old items hold q k hq hk hwin
+
+open RbV.Model.MyersTraceback in
+/-- **[C] the ring of `find_all` is large enough for every hit.**  `FullMatches` allocates `N = m + min(k, m) + 2` slots
+and only ever starts a traceback at the hit it has just reported (`self.pos`; after an unsuccessful end every accessor
+answers `None`).  For a hit ending at `stop − 1` (distance `≤ k`) the traceback reads the current column, the column to
+its left and one more column per left move, `stop − start + 2` items in all; each of these reads finds the state of that
+column (sequence number `stop + 1 − kk`), whatever the vector contained before the search and however often it has
+wrapped around.  For ends that are not hits nothing is promised by `find_all` (and nothing is reachable through its
+API); see the `example` below for such an end where the ring has already lost the column.  `find_all_lazy` allocates
+`n + 2` slots, which never wrap (`traceback_model_sound_lazy`). -/
+theorem ring_lookup_correct (w : Nat) (eqv : Nat → Nat → Bool) (p t : List Nat) (dmax k stop : Nat)
+    (old : List (RbV.Model.MyersSimple.St w))
+    (hold : old.length = p.length + min k p.length + 2) (h1 : 1 ≤ stop) (hs : stop ≤ t.length)
+    (d : Nat) (hdv : (lastRow (unitW eqv) p t)[stop - 1]? = some d) (hk : d ≤ k) :
+    stop - (traceback (unitW eqv) p t stop).1 ≤ p.length + min k p.length ∧
+    ∀ kk, kk ≤ stop - (traceback (unitW eqv) p t stop).1 + 1 →
+      readStore (storeAll (p.length + min k p.length + 2) old 0 (seqStates w eqv p dmax (t.take stop)))
+        ((stop + 1) % (p.length + min k p.length + 2)) kk =
+      (seqStates w eqv p dmax t).getD (stop + 1 - kk) ⟨0#w, 0#w, 0⟩ := by
+  have hrow := RbV.Model.Ukkonen.lastRow_cell (unitW eqv) p t (stop - 1) (by omega)
+  have e : stop - 1 + 1 = stop := by omega
+  rw [e, hdv] at hrow
+  injection hrow with hrow
+  have hspan := traceback_span eqv p t stop hs
+  rw [← hrow] at hspan
+  have hle := (traceback_sound eqv p t stop hs).1
+  refine ⟨by omega, ?_⟩
+  intro kk hkk
+  have hlen := seqStates_length w eqv p dmax (t.take stop)
+  have htl : (t.take stop).length = stop := by simp; omega
+  rw [ring_read _ (by omega) old _ hold (stop + 1) kk (by omega) (by omega) (by omega)]
+  exact seqStates_take w eqv p dmax t stop (stop + 1 - kk) hs (by omega)
+
+open RbV.Model.MyersTraceback in
+/-- **[C] the stored-state traceback is sound (eager API).**  `tracebackStore` = search `stop` symbols with `_step`
+storing every state in the ring of `N = m + min(k, m) + 2` slots (old contents arbitrary), then `_traceback_at` at the
+current slot with the handler of `handler_reads_true_cells`.  For every hit (distance `≤ k`) its result — start
+`stop − h_offset`, distance `block.dist`, reversed operation list — is exactly the prediction of the matrix-level rule and
+therefore an accepted hit (`traceback_rule_sound`, `checkHit_sound`).  Every width, pattern `1 ≤ m ≤ w`, equivalence,
+text, `k`. -/
+theorem traceback_model_sound (w : Nat) (eqv : Nat → Nat → Bool) (p t : List Nat) (dmax k stop : Nat)
+    (old : List (RbV.Model.MyersSimple.St w)) (hm1 : 1 ≤ p.length) (hw : p.length ≤ w) (hd : p.length < dmax)
+    (hold : old.length = p.length + min k p.length + 2) (h1 : 1 ≤ stop) (hs : stop ≤ t.length)
+    (d : Nat) (hdv : (lastRow (unitW eqv) p t)[stop - 1]? = some d) (hk : d ≤ k) :
+    tracebackStore w eqv p dmax (p.length + min k p.length + 2) old t stop stop =
+      ((traceback (unitW eqv) p t stop).1, d, (traceback (unitW eqv) p t stop).2) ∧
+    checkHit eqv p t k ⟨(tracebackStore w eqv p dmax (p.length + min k p.length + 2) old t stop stop).1, stop,
+      (tracebackStore w eqv p dmax (p.length + min k p.length + 2) old t stop stop).2.1,
+      (tracebackStore w eqv p dmax (p.length + min k p.length + 2) old t stop stop).2.2⟩ = true := by
+  have hrow := RbV.Model.Ukkonen.lastRow_cell (unitW eqv) p t (stop - 1) (by omega)
+  have e : stop - 1 + 1 = stop := by omega
+  rw [e, hdv] at hrow
+  injection hrow with hrow
+  have hspan := traceback_span eqv p t stop hs
+  rw [← hrow] at hspan
+  have heq := tracebackStore_eq w eqv p dmax (p.length + min k p.length + 2) old t stop stop hm1 hw hd (by omega) hold
+    hs (Nat.le_refl _) (by omega)
+  rw [← hrow] at heq
+  refine ⟨heq, ?_⟩
+  rw [heq]
+  exact traceback_rule_sound eqv p t k stop h1 hs d hdv hk
+
+open RbV.Model.MyersTraceback in
+/-- **[C] … and for the lazy API at every searched end, hit or not.**  `find_all_lazy` allocates `n + 2` slots; after `c`
+symbols have been consumed, `_traceback_at` for any end `stop − 1 < c` returns the prediction of the matrix-level rule,
+an alignment of cost `D[stop − 1]` accepted without regard to `k` (the documented promise of the single-word version:
+"will succeed even if the edit distance at the given position is greater than the maximum distance"). -/
+theorem traceback_model_sound_lazy (w : Nat) (eqv : Nat → Nat → Bool) (p t : List Nat) (dmax c stop : Nat)
+    (old : List (RbV.Model.MyersSimple.St w)) (hm1 : 1 ≤ p.length) (hw : p.length ≤ w) (hd : p.length < dmax)
+    (hold : old.length = t.length + 2) (hc : c ≤ t.length) (h1 : 1 ≤ stop) (hs : stop ≤ c)
+    (d : Nat) (hdv : (lastRow (unitW eqv) p t)[stop - 1]? = some d) :
+    tracebackStore w eqv p dmax (t.length + 2) old t c stop =
+      ((traceback (unitW eqv) p t stop).1, d, (traceback (unitW eqv) p t stop).2) ∧
+    checkHit eqv p t d ⟨(tracebackStore w eqv p dmax (t.length + 2) old t c stop).1, stop,
+      (tracebackStore w eqv p dmax (t.length + 2) old t c stop).2.1,
+      (tracebackStore w eqv p dmax (t.length + 2) old t c stop).2.2⟩ = true := by
+  have hrow := RbV.Model.Ukkonen.lastRow_cell (unitW eqv) p t (stop - 1) (by omega)
+  have e : stop - 1 + 1 = stop := by omega
+  rw [e, hdv] at hrow
+  injection hrow with hrow
+  have heq := tracebackStore_eq w eqv p dmax (t.length + 2) old t c stop hm1 hw hd (by omega) hold hc hs (by omega)
+  rw [← hrow] at heq
+  refine ⟨heq, ?_⟩
+  rw [heq]
+  exact traceback_rule_sound eqv p t d stop h1 (by omega) d hdv (Nat.le_refl _)
+
+open RbV.Model.MyersTraceback in
+/-- **[C] the lazy availability test refuses exactly the unsearched positions.**  `traceback_at(e)` answers iff
+`e + 2 ≤ self.pos`; with the `n + 2` slots of `find_all_lazy` and `c ≤ n` symbols consumed, `self.pos = c + 1`, so the
+`*_at(e)` methods answer iff `e < c`.  (`e + 2` is computed in `usize`; `e ≥ usize::MAX − 1` is outside the model.) -/
+theorem lazy_available_iff (n c e : Nat) (hc : c ≤ n) : availableAt (n + 2) c e = true ↔ e < c :=
+  availableAt_iff n c e hc
+
+open RbV.Model.MyersTraceback in
+/-- the single pass the compiled driver runs (`scanStore`: the vector kept in an `Array` while the text is consumed, as
+`FullMatches`/`LazyMatches` do) reports for every wanted end `c` exactly `tracebackStore … t c c`, the function of
+`traceback_model_sound` -/
+theorem scan_is_model (w : Nat) (eqv : Nat → Nat → Bool) (p : List Nat) (dmax N : Nat)
+    (old : List (RbV.Model.MyersSimple.St w)) (t : List Nat) (want : Nat → Bool) :
+    scanStore w eqv p dmax N old t want =
+      ((List.range (t.length + 1)).filter want).map (fun c => (c, tracebackStore w eqv p dmax N old t c c)) :=
+  scanStore_eq w eqv p dmax N old t want
+
 -- non-vacuity
 example : checkHit eqSym [1, 2, 3] [9, 1, 3, 9] 1 ⟨1, 3, 1, [.mat, .ins, .mat]⟩ = true := by decide
 example : checkHit eqSym [1, 2, 3] [9, 1, 3, 9] 1 ⟨1, 3, 1, [.mat, .sub, .mat]⟩ = false := by decide
 example : checkHit eqSym [1, 2, 3] [9, 1, 3, 9] 1 ⟨0, 3, 2, [.del, .mat, .ins, .mat]⟩ = false := by decide
 example : RbV.Model.MyersTraceback.traceback (unitW eqSym) [1, 2, 3] [9, 1, 3, 9] 3 = (1, [.mat, .ins, .mat]) := by decide
+
+-- non-vacuity (phase 2); `old` = stale contents of `states_store`
+open RbV.Model.MyersTraceback in
+example : tracebackStore 8 eqSym [1, 2, 3] 255 6 (List.replicate 6 ⟨0x5a#8, 0x33#8, 7⟩) [9, 1, 3, 9] 3 3 =
+    (1, 1, [.mat, .ins, .mat]) := by decide
+-- the ring (6 slots) has wrapped around: 11 items stored
+open RbV.Model.MyersTraceback in
+example : tracebackStore 8 eqSym [1, 2, 3] 255 6 (List.replicate 6 ⟨0x5a#8, 0x33#8, 7⟩) [9, 9, 9, 9, 9, 9, 1, 2, 2, 3] 10 10 =
+    (6, 1, [.mat, .mat, .del, .mat]) := by decide
+-- lazy store (n + 2 slots), traceback at an end that is not a hit for any k < 3, after 5 of 6 symbols
+open RbV.Model.MyersTraceback in
+example : tracebackStore 8 eqSym [1, 2, 3] 255 8 (List.replicate 8 ⟨0#8, 0#8, 0⟩) [9, 9, 1, 9, 9, 9] 5 5 =
+    (2, 2, [.mat, .sub, .sub]) := by decide
+-- the handler after one pass (a Match): cursor at row 2 (`pos = 0b10`) of column 2, `block.dist = D[2][2] = 1`,
+-- `left_block.dist = D[1][1] = 1`
+open RbV.Model.MyersTraceback in
+example : (fun h : Handler 8 => (h.pos, h.state.dist, h.left.dist))
+    (Handler.after 255 3 (fun k => (seqStates 8 eqSym [1, 2, 3] 255 [9, 1, 3, 9]).getD (3 + 1 - k) ⟨0#8, 0#8, 0⟩) 1) =
+    (0b10#8, 1, 1) := by decide
+-- an end that is not a hit (k = 0, D = 3) whose alignment spans m + 3 columns: the ring of `find_all` (m + 0 + 2 = 10
+-- slots) has lost the columns the walk needs and the result is not the rule's (an invalid path: Subst over equal
+-- symbols).  `find_all` never asks for it; the hypothesis `d ≤ k` of `traceback_model_sound` is needed.
+open RbV.Model.MyersTraceback in
+example : (tracebackStore 8 eqSym [1, 2, 3, 4, 5, 6, 7, 8] 255 10 (List.replicate 10 ⟨0#8, 0#8, 0⟩)
+      [7, 7, 1, 2, 3, 4, 9, 9, 9, 5, 6, 7, 8] 13 13).2.2 ≠
+    (traceback (unitW eqSym) [1, 2, 3, 4, 5, 6, 7, 8] [7, 7, 1, 2, 3, 4, 9, 9, 9, 5, 6, 7, 8] 13).2 := by decide
+open RbV.Model.MyersTraceback in
+example : availableAt 12 5 4 = true ∧ availableAt 12 5 5 = false ∧ availableAt 12 0 0 = false := by decide
 
 end RbV.Thm.C10
